@@ -101,6 +101,7 @@ def payload_text(v, j, compact=False) -> Tuple[str, Optional[list], Optional[str
 def assemble(v, j, pad: int = 0, outside: bool = False, compact: bool = False) -> Tuple[str, Optional[list], Optional[str]]:
     P, plan_list, rat = payload_text(v, j, compact)
     padding = " " * pad
+    P0 = P
     if pad and not outside:
         P = (P[:1] + padding + P[1:]) if P[:1] in ("{", "[") else (P + padding)
     f = v["fence"]
@@ -116,7 +117,7 @@ def assemble(v, j, pad: int = 0, outside: bool = False, compact: bool = False) -
         core = ("```json\n%s" % P) if j % 2 == 0 else ("```json\n%s\n``" % P)
     else:  # two fenced blocks
         b = "```json\n%s\n```" % P
-        core = (b + "\n" + b) if j % 2 == 0 else (b + "\n\n```\n" + SMALL_OBJ + "\n```")
+        core = (b + "\n" + "```json\n%s\n```" % P0) if j % 2 == 0 else (b + "\n\n```\n" + SMALL_OBJ + "\n```")
     if v["prose"] == "prefix":
         core = _pick(["Here is the plan:\n", "Sure! ", "PLAN "], j) + core
     elif v["prose"] == "suffix":
